@@ -945,16 +945,79 @@ func (r *c09rules) fillCallers(ev *c09Event, F *ssa.Function, pi int, S *types.S
 				continue
 			}
 			ncall++
-			fa, ok := ci.Common().Args[pi].(*ssa.FieldAddr)
-			if !ok || len(M.Params) == 0 || fa.X != ssa.Value(M.Params[0]) || M.Signature.Recv() == nil {
-				if al, ok := ci.Common().Args[pi].(*ssa.Alloc); ok && !al.Heap {
+			// the filled object: a struct-valued field of the caller's receiver (possibly inside embedded structs), or
+			// the struct behind a pointer field that is set once, to a fresh object, outside the reader's methods
+			chainOf := func(fn *ssa.Function, v ssa.Value) ([]*types.Var, bool) {
+				if len(fn.Params) == 0 || fn.Signature.Recv() == nil {
+					return nil, false
+				}
+				if _, isFA := v.(*ssa.FieldAddr); !isFA {
+					return nil, false
+				}
+				fields, root, exact := c09AddrRoot(v)
+				if !exact || root != ssa.Value(fn.Params[0]) || len(fields) == 0 {
+					return nil, false
+				}
+				for cur := v; ; {
+					fa, ok := cur.(*ssa.FieldAddr)
+					if !ok {
+						break
+					}
+					cur = fa.X
+					if _, isIdx := cur.(*ssa.IndexAddr); isIdx {
+						return nil, false
+					}
+				}
+				return fields, true
+			}
+			sameChain := func(x, y []*types.Var) bool {
+				if len(x) != len(y) {
+					return false
+				}
+				for i := range x {
+					if x[i] != y[i] {
+						return false
+					}
+				}
+				return true
+			}
+			arg := ci.Common().Args[pi]
+			chain, ok := chainOf(M, arg)
+			viaPtr := false
+			if !ok {
+				if ld, isLd := arg.(*ssa.UnOp); isLd && ld.Op == token.MUL {
+					if chain, ok = chainOf(M, ld.X); ok {
+						viaPtr = true
+					}
+				}
+			}
+			if !ok {
+				if al, ok := arg.(*ssa.Alloc); ok && !al.Heap {
 					continue // a local of the caller: dies with the activation unless it flows on (tracked)
 				}
 				c.Unknown("R09a", key, core.InstrPos(ci), "filled object is not a field of the caller's receiver")
 				return false
 			}
-			g := core.FieldOfAddr(fa)
+			g := chain[len(chain)-1]
 			T := c09RecvNamed(M)
+			if viaPtr {
+				// pointer stability: the field is only ever assigned a fresh object, and never in a method of T
+				for _, W := range r.t.fns {
+					for _, w := range core.Writes(W) {
+						if w.Kind != "field" || w.Field != g {
+							continue
+						}
+						if rn := c09RecvNamed(W); rn != nil && types.Identical(rn, T) {
+							c.Unknown("R09a", key, w.Pos, fmt.Sprintf("%s reassigns the pointer %s.%s through which the tokenizer fills its result: the holder is no longer one object", core.FuncKey(W), T.Obj().Name(), g.Name()))
+							return false
+						}
+						if _, fresh := w.Val.(*ssa.Alloc); !fresh {
+							c.Unknown("R09a", key, w.Pos, fmt.Sprintf("%s.%s is not assigned a freshly allocated object in %s", T.Obj().Name(), g.Name(), core.FuncKey(W)))
+							return false
+						}
+					}
+				}
+			}
 			for _, M2 := range r.t.fns {
 				if rn := c09RecvNamed(M2); rn == nil || !types.Identical(rn, T) || M2.Parent() != nil {
 					continue
@@ -964,27 +1027,52 @@ func (r *c09rules) fillCallers(ev *c09Event, F *ssa.Function, pi int, S *types.S
 				for _, b := range M2.Blocks {
 					for _, in := range b.Instrs {
 						fa2, ok := in.(*ssa.FieldAddr)
-						if !ok || core.FieldOfAddr(fa2) != g || fa2.X != ssa.Value(M2.Params[0]) {
+						if !ok {
 							continue
 						}
-						for _, u := range core.Referrers(fa2) {
-							if call, ok := u.(ssa.CallInstruction); ok {
-								cg := call.Common().StaticCallee()
-								isFill := cg == F
-								for i, a := range call.Common().Args {
-									if a == ssa.Value(fa2) && r.isResetFn(cg, i, S) {
-										isFill = true
+						if ch2, ok := chainOf(M2, fa2); !ok || !sameChain(ch2, chain) {
+							continue
+						}
+						// the values that denote the holder object in M2
+						var refs []ssa.Value
+						if !viaPtr {
+							refs = []ssa.Value{fa2}
+						} else {
+							for _, u := range core.Referrers(fa2) {
+								switch y := u.(type) {
+								case *ssa.UnOp:
+									if y.Op == token.MUL {
+										refs = append(refs, y)
+									}
+								case *ssa.DebugRef:
+								default:
+									uses = append(uses, u)
+								}
+							}
+						}
+						for _, rv := range refs {
+							for _, u := range core.Referrers(rv) {
+								if call, ok := u.(ssa.CallInstruction); ok {
+									cg := call.Common().StaticCallee()
+									isFill := false
+									for i, a := range call.Common().Args {
+										if a != rv {
+											continue
+										}
+										if (cg == F && i == pi) || r.isResetFn(cg, i, S) {
+											isFill = true
+										}
+									}
+									if isFill {
+										fills = append(fills, call)
+										continue
 									}
 								}
-								if isFill {
-									fills = append(fills, call)
+								if _, ok := u.(*ssa.DebugRef); ok {
 									continue
 								}
+								uses = append(uses, u)
 							}
-							if _, ok := u.(*ssa.DebugRef); ok {
-								continue
-							}
-							uses = append(uses, u)
 						}
 					}
 				}
